@@ -463,6 +463,15 @@ def rstrip_nul(s, chars, ctx):
                     break
                 segs.pop()
                 continue
+            if g.origin is not None and g.origin[0] == "decoded":
+                # stripping an opaque decoded text yields some (shorter or equal) opaque text; no exception is possible
+                nl = ctx.fresh_int("striplen", 0)
+                ctx.fact(nl <= zi(L))
+                ng = array_gen(fresh_name("stripped"), nl, (), char_fact)
+                ng.origin = ("decoded", None)
+                segs[-1] = ng
+                ctx.used_models.add("str.rstrip on an opaque decoded text: some opaque text, never raises")
+                break
             raise _U()("rstrip into an opaque segment that may end with the strip character")
     return Seq(s.kind, segs)
 
